@@ -830,6 +830,9 @@ void save_watchpoint(struct mcount_thread_data *mtdp, struct mcount_ret_stack *r
 			if (!memcmp(&watch_data, w->data, w->size))
 				continue;
 
+			/* remember what this thread has seen, to notice the next change */
+			mcount_memcpy1(w->data, &watch_data, w->size);
+
 			/* make sure only one thread updates the watch data */
 			if (!mcount_watch_update(w->addr, &watch_data, w->size))
 				continue;
